@@ -32,6 +32,7 @@
 
 //! Core implementation of build-in functions.
 
+use crate::builders::operand_text;
 use crate::evaluate_equals;
 use dmntk_feel::context::FeelContext;
 use dmntk_feel::values::Value::YearsAndMonthsDuration;
@@ -65,7 +66,7 @@ pub fn abs(value: &Value) -> Value {
 
 /// TBD
 pub fn after(value1: &Value, value2: &Value) -> Value {
-  value_null!("[core::after] under construction: {} | {}", value1, value2)
+  value_null!("[core::after] under construction: {} | {}", operand_text(value1), operand_text(value2))
 }
 
 /// Returns `false` if any item is `false`, `true` if empty or all items are true, else `null`.
@@ -172,7 +173,7 @@ pub fn ceiling(value: &Value) -> Value {
 
 /// TBD
 pub fn coincides(value1: &Value, value2: &Value) -> Value {
-  value_null!("[core::coincides] under construction: {} | {}", value1, value2)
+  value_null!("[core::coincides] under construction: {} | {}", operand_text(value1), operand_text(value2))
 }
 
 /// Returns new list that is a concatenation of the arguments.
